@@ -20,7 +20,7 @@ SWITCHES = list(itertools.product((False, True), repeat=3))  # inbound, internal
 
 class Check(HCheck):
     pid = ID
-    owned = ("links", "crawl", "clear", "reopen")
+    owned = ("links", "crawl", "clear", "reopen", "as_str")
     must_count = ("page_links_nonempty", "self_link_seen", "weight_gt1_seen", "in_and_out_on_one_page")
 
     def spaces(self, tier):
@@ -40,6 +40,8 @@ class Check(HCheck):
             al.page(Az),
             al.create(Ax),
             al.rule(A, "path1"),
+            al.as_str(al.LB_SRC_AND_TGT),
+            al.as_str(al.CB_KNOWN),
         ]
         d = 4 if thorough else 3
         sp = [
